@@ -41,6 +41,9 @@ class _Linalg:
     @staticmethod
     def norm(x, axis=None):
         cx = Ctx.cur
+        from . import gram
+        if gram.is_abs(x):
+            return gram.norm(x)
         if not isinstance(x, _np.ndarray):
             x = _np.asarray(x, dtype=object)
         if x.dtype != object:
@@ -94,9 +97,9 @@ class NPModel:
     ndarray = _np.ndarray
     random = _np.random
 
-    _passthrough = {"finfo", "dtype", "arange", "linspace", "copy", "ascontiguousarray", "column_stack", "vstack",
+    _passthrough = {"finfo", "dtype", "arange", "linspace", "ascontiguousarray", "column_stack", "vstack",
                     "hstack", "dstack", "row_stack", "asarray", "append", "unique", "argsort", "where", "sum", "mean",
-                    "all", "any", "logical_not", "dot", "cross", "fromiter", "fromstring", "transpose", "concatenate",
+                    "all", "any", "logical_not", "fromiter", "fromstring", "transpose", "concatenate",
                     "atleast_2d", "isscalar", "int32", "bool_", "float32", "uint8", "cumsum", "prod", "isfinite", "isnan",
                     "outer", "allclose", "stack", "roll", "repeat", "tile", "searchsorted", "nonzero", "count_nonzero",
                     "array_equal", "empty_like", "zeros_like", "ones_like", "triu_indices", "meshgrid", "floor", "ceil",
@@ -110,6 +113,28 @@ class NPModel:
         if name == "row_stack":   # removed from numpy 2.x; the real code fails here too (AttributeError)
             raise AttributeError("module 'numpy' has no attribute 'row_stack'")
         raise Unsupported("numpy.%s is not modelled" % name)
+
+    # -- products (Gram mode: abstract vectors)
+    @staticmethod
+    def dot(a, b):
+        from . import gram
+        if gram.is_abs(a) or gram.is_abs(b):
+            return gram.dot(a, b)
+        return _np.dot(a, b)
+
+    @staticmethod
+    def cross(a, b):
+        from . import gram
+        if gram.is_abs(a) or gram.is_abs(b):
+            return gram.cross(a, b)
+        return _np.cross(a, b)
+
+    @staticmethod
+    def copy(a):
+        from . import gram
+        if gram.is_abs(a):
+            return a.copy()
+        return _np.copy(a)
 
     # -- creation
     @staticmethod
